@@ -69,9 +69,10 @@ Proof.
   rewrite fold_visit_usages.
   set (base := if c then cleanup_defs F (cleanup_usages F (set_file_cache s (ainsert F (cached_of v) (file_cache s))))
                else cleanup_usages F (set_file_cache s (ainsert F (cached_of v) (file_cache s)))).
-  assert (Hb : usages (set_modnames base (ainsert F (f_modnames v) (modnames base))) =
+  set (basev := set_version base (version base + 1)).
+  assert (Hb : usages (set_modnames basev (ainsert F (f_modnames v) (modnames basev))) =
                filter (fun u => negb (path_eqb (u_file u) F)) (usages s)).
-  { unfold base. destruct c; reflexivity. }
+  { unfold basev, base. destruct c; reflexivity. }
   rewrite Hb.
   apply NoDup_app_intro.
   - now apply NoDup_filter.
